@@ -123,6 +123,16 @@ SUMMARY = {
  "C15-m": "an extension that exits with status 0 is no longer recorded as the first fault: init-runtime-done reports Runtime.Unknown",
  "C16-m": "mapExclude deletes in place and AgentExecEnv filters the stored customer map: computing an extension's environment strips the runtime's",
  "C20-m": "init/error stores the X-Ray cause header for the tracer checked with json.Valid only: a second, unsanitised entry point",
+ "C01-n": "front end sizes the event buffer from Content-Length and treats -1 (chunked / streamed request) as no body: the event is dropped",
+ "C02-n": "response-mode header validated before the runtime's state transition: a second submission with a bad mode header during the first one's upload answers the caller and makes the first one fail",
+ "C03-n": "agents-ready barrier skipped when init runs inside an invocation: after a reset the runtime is served before a registered extension asked for its next event",
+ "C04-n": "subscribed external agents memoised across resets: invocations of later generations are fanned out to the agent objects of the first",
+ "C08-n": "cached init error consumed on use instead of cleared by the reset: the failure left by an interrupted init answers a crash generations later",
+ "C10-n": "InitializeBarriers no longer re-arms the agents-ready gate: the next invocation does not wait for the extensions of the previous one",
+ "C12-n": "a cancelled gate makes WalkThrough fail: after a restore hook timeout the runtime's next is refused with 403",
+ "C17-n": "token bucket grants a chunk whenever any token is left: streamed responses exceed the rate bound",
+ "C18-n": "credentials map seeded from the emulator's own environment: in snapshot mode the static credentials are placed in the runtime's environment",
+ "C19-n": "Kill holds the process-table lock across its wait: Terminate / Kill / Exec of other processes queue behind a slow one",
  "C04-e": "AwaitRuntimeReady of the invoke flow waits on the response gate: the invocation completes before the runtime asked for next",
  "C11-e": "a cancelled gate whose count is met returns success from AwaitGateCondition",
  "C13-e": "event validation of register only looks at the last element: an illegal event before a legal one registers a ghost / wrong error type",
